@@ -89,6 +89,19 @@ class Script(Session):
             c.assume(xcmp("<", v, hi_strict))
         return self._rec(name, v)
 
+    def choose(self, name, options):
+        """a symbolic choice among concrete options (forks one path per option)"""
+        if self.mode == "replay":
+            return self._rec(name, self.pinned[name])
+        c = ctx()
+        k = z3.Int(name)
+        self._rec(name, k)
+        c.assume(z3.And(k >= 0, k < len(options)))
+        for i, o in enumerate(options[:-1]):
+            if c.decide(k == i):
+                return o
+        return options[-1]
+
     def boolean(self, name):
         if self.mode == "replay":
             return self._rec(name, bool(self.pinned[name]))
